@@ -140,18 +140,23 @@ func ApplyMetricsQuery(mQuery *structs.MetricsQuery, timeRange *dtu.MetricsTimeR
 		}
 	}
 
-	if mQuery.SelectAllSeries {
-		filteredTags := make([]*structs.TagsFilter, 0, len(allTagKeys))
+	// A series is found through the tags trees of its keys. With `by (l...)` and no label matcher the
+	// filters are l=* only: a series that carries none of the by-labels (its group has no labels) is
+	// found through its other keys.
+	groupByKeysOnly := mQuery.Groupby && len(mQuery.TagsFilters) > 0
+	for _, v := range mQuery.TagsFilters {
+		rawVal, isStr := v.RawTagValue.(string)
+		if !v.IsGroupByKey || !isStr || rawVal != tagstree.STAR {
+			groupByKeysOnly = false
+		}
+	}
+
+	if mQuery.SelectAllSeries || groupByKeysOnly {
+		// The keys of a `without` list stay among the filters: a series that carries no other
+		// key is only found through them. The aggregation takes them out of the group ids.
 		for _, v := range mQuery.TagsFilters {
 			delete(allTagKeys, v.TagKey)
-			if v.IgnoreTag && !v.NotInitialGroup {
-				continue
-			}
-
-			filteredTags = append(filteredTags, v)
 		}
-
-		mQuery.TagsFilters = filteredTags
 
 		for tkey, present := range allTagKeys {
 			if present {
